@@ -576,6 +576,9 @@ void Plan::ScheduleInitialEdges() {
     if (want == kWantToStart && edge->AllInputsReady()) {
       Pool* pool = edge->pool();
       if (pool->ShouldDelayEdge()) {
+        // Mark the edge as scheduled, like ScheduleWork() does, so that a
+        // later EdgeMaybeReady() (dyndep walk) does not schedule it again.
+        it->second = kWantToFinish;
         pool->DelayEdge(edge);
         pools.insert(pool);
       } else {
